@@ -224,9 +224,88 @@ class MustFacts:
             self.aliases = _local_aliases(g.fn.node)
         except Exception:
             self.aliases = {}
+        self.flag_facts: dict = {}
         self._solve()
+        # second pass with what boolean flags stand for: `ok = <bool expr>` ... `if not ok: return False`
+        try:
+            ff = self._flag_facts()
+        except Exception:
+            ff = {}
+        if ff:
+            self.flag_facts = ff
+            self._solve()
         if self.aliases:
             self.inn = {k: self._with_aliases(v) for k, v in self.inn.items()}
+
+    def _flag_facts(self) -> dict:
+        """(flag name, truth) -> clauses that hold whenever the flag has that truth value.
+        A flag is a local assigned only booleans (True / False / a boolean expression) -- never a parameter.  For each assignment
+        `v = E` the facts at that point plus E (resp. not E) are what v being true (false) tells; over several assignments the
+        common part is kept.  Only clauses over names that are assigned at most once in the function and paths that are never
+        stored to survive (they cannot have changed between the assignment and the test of the flag)."""
+        fn = self.g.fn.node
+        assigned: dict = {}
+        stores = set()
+        for n in ast.walk(fn):
+            tg = []
+            if isinstance(n, ast.Assign):
+                tg = n.targets
+            elif isinstance(n, (ast.AnnAssign, ast.AugAssign)):
+                tg = [n.target]
+            elif isinstance(n, (ast.For, ast.comprehension)):
+                tg = [n.target]
+            for t in tg:
+                for x in ast.walk(t):
+                    if isinstance(x, ast.Name) and isinstance(x.ctx, ast.Store):
+                        assigned[x.id] = assigned.get(x.id, 0) + 1
+                if isinstance(t, (ast.Attribute, ast.Subscript)):
+                    stores.add(norm(t))
+        params = set()
+        if isinstance(fn, (ast.FunctionDef, ast.AsyncFunctionDef)):
+            a = fn.args
+            params = {p.arg for p in a.posonlyargs + a.args + a.kwonlyargs}
+
+        def boolish(e):
+            return (isinstance(e, ast.Constant) and isinstance(e.value, bool)) or isinstance(e, (ast.Compare, ast.BoolOp)) or \
+                (isinstance(e, ast.UnaryOp) and isinstance(e.op, ast.Not)) or \
+                (isinstance(e, ast.Call) and isinstance(e.func, ast.Name) and e.func.id in ("bool", "isinstance", "hasattr", "all", "any"))
+        sites: dict = {}
+        for n in self.g.nodes:
+            a = n.ast
+            if n.kind == "stmt" and isinstance(a, (ast.Assign, ast.AnnAssign)) and getattr(a, "value", None) is not None:
+                tg = a.targets if isinstance(a, ast.Assign) else [a.target]
+                if len(tg) == 1 and isinstance(tg[0], ast.Name):
+                    sites.setdefault(tg[0].id, []).append((n, a.value))
+        out = {}
+
+        def stable(cl):
+            for (t, _p) in cl:
+                for nm in _names(t):
+                    if assigned.get(nm, 0) > (0 if nm in params else 1):
+                        return False
+                if any(s_ in t for s_ in stores):
+                    return False
+            return True
+        def is_none(e):
+            return isinstance(e, ast.Constant) and e.value is None
+        for v, lst in sites.items():
+            if v in params or not all(boolish(e) or is_none(e) for (_n, e) in lst) or assigned.get(v, 0) != len(lst):
+                continue
+            for truth in (True, False):
+                acc = None
+                for (n, e) in lst:
+                    if isinstance(e, ast.Constant):
+                        if bool(e.value) is not truth:
+                            continue
+                        here = set(self.inn.get(n.id, frozenset()))
+                    else:
+                        inner = e.args[0] if (isinstance(e, ast.Call) and isinstance(e.func, ast.Name) and e.func.id == "bool" and len(e.args) == 1) else e
+                        here = set(self.inn.get(n.id, frozenset())) | set(_atoms_cnf(inner, truth))
+                    here = frozenset(cl for cl in here if cl and stable(cl) and v not in clause_names(cl))
+                    acc = here if acc is None else _join(acc, here)
+                if acc:
+                    out[(v, truth)] = frozenset(acc)
+        return out
 
     def _with_aliases(self, clauses: frozenset) -> frozenset:
         """every clause that mentions an alias, repeated with the alias replaced by the path it stands for"""
@@ -275,7 +354,15 @@ class MustFacts:
                 for (b, l) in g.succ[nid]:
                     if self.normal_only and l in ("exc", "excb"):
                         continue
-                    out = base | frozenset(edge_facts(n, l))
+                    ef = edge_facts(n, l)
+                    out = base | frozenset(ef)
+                    if self.flag_facts:
+                        for cl in ef:
+                            if len(cl) == 1:
+                                (t_, p_), = tuple(cl)
+                                extra_ = self.flag_facts.get((t_, p_))
+                                if extra_:
+                                    out = out | extra_
                     if inn[b] is TOP:
                         inn[b] = out
                         changed = True
